@@ -1,5 +1,5 @@
 (* Entry point of the extracted executable for the C03 verdict kernels. *)
-From CV Require Import Base.Bytes VF.Defs VF.Run Verdict.Defs.
+From CV Require Import Base.Bytes VF.Defs VF.Run Verdict.Defs Verdict.Sweep.
 Local Open Scope Z_scope.
 
 Definition cmp_of (s : str) : option cmp :=
@@ -24,7 +24,8 @@ Definition ctype_of (b s : str) : ctype := mkT (base_of b) (sign_of s).
 Definition run (fields : list str) : list str :=
   match fields with
   | tag :: args =>
-      if tag_is tag [111;111;114]%N then
+      if tag_is tag [115;119;101;101;112]%N then run_sweep args      (* "sweep": MiniC program over a product of inputs *)
+      else if tag_is tag [111;111;114]%N then
         match take_platform args with
         | Some (p, [vb; vs; cb; cs; cl; o; c]) =>
             match cmp_of o with
